@@ -289,7 +289,9 @@ func (w *World) apply(a Act) (ok bool, rec map[string]interface{}) {
 		}), nil
 	case "EditTemplate":
 		t, _ := a["t"].(string)
-		return e.UserUpdate(simName, func(s *apps.StatefulSet) { s.Spec.Template = baseTemplate(simName, t, len(s.Spec.VolumeClaimTemplates)) }), nil
+		return e.UserUpdate(simName, func(s *apps.StatefulSet) {
+			s.Spec.Template = baseTemplate(simName, t, len(s.Spec.VolumeClaimTemplates))
+		}), nil
 	case "SetPartition":
 		p := int32(a.num("p"))
 		return e.UserUpdate(simName, func(s *apps.StatefulSet) {
@@ -565,6 +567,9 @@ func (w *World) randomBehaviour(r *rand.Rand, maxOrd, depth int, id string, migr
 			a = Act{"act": "Reconcile", "faults": []interface{}{}}
 			if faults > 0 && r.Intn(3) == 0 {
 				kd := kinds[r.Intn(len(kinds))]
+				if w.queueMode && r.Intn(2) == 0 { // errors a client may be tempted to call permanent
+					kd = kinds[len(kinds)-1-r.Intn(2)]
+				}
 				f := map[string]interface{}{"k": float64(1 + r.Intn(6)), "kind": kd[0], "applied": kd[1], "die": kd[2], "list": float64(0)}
 				if r.Intn(8) == 0 {
 					f["k"], f["list"] = float64(0), float64(1+r.Intn(4))
